@@ -191,7 +191,12 @@ func (o *c18) liveScans(r *StepRec) {
 		heights[q.Height] = true
 		wantNew[q.Height] = append(wantNew[q.Height], q.Ctx)
 	}
+	hs := make([]int64, 0, len(heights))
 	for h := range heights {
+		hs = append(hs, h)
+	}
+	sort.Slice(hs, func(i, j int) bool { return hs[i] < hs[j] })
+	for _, h := range hs {
 		var gotE, gotN []string
 		k.IterateExpiredRequestBatch(ctx, h, func(id tmbytes.HexBytes, _ types.RequestContext) { gotE = append(gotE, hx(id)) })
 		k.IterateNewRequestBatch(ctx, h, func(id tmbytes.HexBytes, _ types.RequestContext) { gotN = append(gotN, hx(id)) })
@@ -238,7 +243,7 @@ func (o *c18) liveScans(r *StepRec) {
 		}
 		it.Close()
 		pre := cid + hx(be64(rc.BatchCounter))
-		for id := range post.ActiveID {
+		for _, id := range sortedKeys(post.ActiveID) {
 			if strings.HasPrefix(id, pre) {
 				want = append(want, id)
 			}
